@@ -5,6 +5,7 @@ shell).  `pkgcore.ebuild.filter_env.main_run` filters it; bash then sources the 
 clean shells and the resulting definitions are compared.
 """
 
+import hashlib
 import io
 import os
 import re
@@ -28,9 +29,11 @@ RULE = (
     "backquote comments, (( )), $(( << )), $( ), nested functions, redirected bodies, names with - . : +) dumped by `declare -f`. "
     "A dump is the concatenation, in the enumerated order, of the fragments bash printed (checked once to equal a "
     "multi-name declare). Every dump is filtered with every filter of the family (none; each name as variable/function "
-    "blacklist and whitelist; each name given to the other matcher; a two-character prefix regex; a two-pattern list; all "
-    "names). Expected removal set = names fully matched by a pattern (inverted in whitelist mode) among top-level "
-    "assignments/functions. A class is (filter kind, kinds of definitions, removed/kept counts)."
+    "blacklist and whitelist; each name given to the other matcher; a two-character prefix regex; one two-pattern list used "
+    "black-then-white, another white-then-black, and single calls giving one list to both matchers in opposite modes; all names, "
+    "black and white). The calls of one dump are made in a fixed order on a freshly executed filter module and replay repeats the "
+    "whole sequence. Expected removal set = names fully matched by a pattern (inverted in whitelist mode) among top-level "
+    "assignments/functions. A class is (filter kind, removed count) or the multiset of definition kinds."
 )
 ASSUMPTIONS = [
     "bash 5.2 is the oracle: a definition is 'preserved' when `declare -p NAME` / `declare -f NAME` print identical text after sourcing the original and the filtered dump in clean `env -i bash --norc --noprofile` shells, sourcing returns 0 and prints nothing, and no other variable/function name appears",
@@ -90,6 +93,10 @@ _VAR_RHS = [
     "([3]=x)",
     "('(' ')' '#')",
     "($'a\\nb' \"it's\")",
+    "$'\\tC:\\\\'",
+    "$'a\\n\\\\'",
+    "$'\\\\\\'x\\n\\\\'",
+    "($'\\t\\\\' 'next')",
 ]
 # (name, full source line, styles)
 VARS = []
@@ -185,7 +192,7 @@ FUNCS += [
 ]
 
 # core sub-alphabet for triples (one representative per parser branch)
-_CORE_V = ["v02", "v03", "v05", "v11", "v25", "v36", "vx"]
+_CORE_V = ["v02", "v03", "v05", "v11", "v25", "v36", "vx", "v41"]
 _CORE_F = ["f01", "f03", "f05", "f12", "f20", "f22", "f26", "f31", "f34", "f47", "fredir"]
 
 
@@ -469,7 +476,17 @@ def filters_for(its):
     first = its[0][1]
     pre = re.escape(first[:2]) + ".*"
     out.append(("prefix-regex", (pre,), (pre,), False, False))
-    out.append(("two-patterns", (re.escape(first), "nomatch_[0-9]+"), (re.escape(first), "nomatch_[0-9]+"), False, False))
+    # The same name list in both modes, in both orders, and one call giving the same list to both matchers with
+    # different modes.  The second pattern is a never-matching literal unique to the dump and to the sub-sequence, so the
+    # three sequences meet fresh pattern lists whatever ran before in this process (state kept between calls shows here).
+    salt = "nomatch_" + hashlib.md5("|".join(f"{st}:{n}" for st, n, _ in its).encode()).hexdigest()[:8]
+    p0 = re.escape(first)
+    out.append(("list-black-then-white:black", (p0, salt + "a"), (p0, salt + "a"), False, False))
+    out.append(("list-black-then-white:white", (p0, salt + "a"), (p0, salt + "a"), True, True))
+    out.append(("list-white-then-black:white", (p0, salt + "b"), (p0, salt + "b"), True, True))
+    out.append(("list-white-then-black:black", (p0, salt + "b"), (p0, salt + "b"), False, False))
+    out.append(("one-call-vars-white-funcs-black", (p0, salt + "c"), (p0, salt + "c"), True, False))
+    out.append(("one-call-vars-black-funcs-white", (p0, salt + "d"), (p0, salt + "d"), False, True))
     vs = tuple(re.escape(n) for s, n, _ in its if s != "func")
     fs = tuple(re.escape(n) for s, n, _ in its if s == "func")
     out.append(("all-names", vs, fs, False, False))
@@ -563,13 +580,23 @@ def byte_check(frags, removed, out):
 
 def check_dump(sh, its, only_filter=None):
     """Evaluate one dump against its filter family. Returns (evals, classes, violations, skipped)."""
+    # state the filter module keeps between calls must not leak from one dump into the next (a replay starts from a fresh
+    # process): every dump's call sequence starts from a freshly executed module
+    import importlib
+
+    from pkgcore.ebuild import filter_env
+
+    importlib.reload(filter_env)
     frags = [sh.fragment(*it) for it in its]
     dump = "".join(frags)
     vnames = [n for s, n, _ in its if s != "func"]
     fnames = [n for s, n, _ in its if s == "func"]
     flts = filters_for(its)
+    selected = None
     if only_filter is not None:
-        flts = [tuple(only_filter[:1]) + tuple(tuple(x) if isinstance(x, list) else x for x in only_filter[1:])]
+        # replay: every main_run call of the dump's family is made again, in the same order (the code under test may
+        # keep state between calls); only the recorded filter is judged
+        selected = tuple(tuple(x) if isinstance(x, list) else x for x in only_filter[1:])
     plan = []
     skipped = 0
     classes = {}
@@ -587,6 +614,8 @@ def check_dump(sh, its, only_filter=None):
         except Exception as e:  # noqa: BLE001 - any exception of the code under test is an observation
             outb, err = None, f"filter_env.main_run raised {type(e).__name__}: {e}"
         plan.append((flt, removed, outb, err))
+    if selected is not None:
+        plan = [p for p in plan if tuple(p[0][1:]) == selected]
     texts = [dump]
     for flt, removed, outb, err in plan:
         if outb is not None:
@@ -704,8 +733,8 @@ def work(task):
             evals += e
             skipped += s
             for k, n in c.items():
-                k = _coarse(k)
-                classes[k] = classes.get(k, 0) + n
+                for kk in (_coarse(k), "kinds|" + "+".join(sorted(k.split("|")[1].split("+")))):
+                    classes[kk] = classes.get(kk, 0) + n
             viol.extend(v)
         if dumps:
             d = dumps[min(len(dumps) - 1, 3)]
@@ -723,9 +752,9 @@ def work(task):
 
 
 def _coarse(cls):
-    """filter kind | multiset of definition kinds | removed count"""
+    """filter kind | removed count (the kinds of definitions are counted separately to keep the number of names small)"""
     f, kinds, rm = cls.split("|")
-    return f + "|" + "+".join(sorted(kinds.split("+"))) + "|" + rm
+    return f + "|" + rm
 
 
 def _minimise(viol):
